@@ -234,10 +234,19 @@ class AliasAnalysis:
             elif isinstance(s, (ast.For, ast.AsyncFor)):
                 self.expr(s.iter)
                 self._bind_iter(s.target, s.iter)
+                # facts established late in one iteration (a container starts to hold a part of the input) hold at the top of the
+                # next one: the body is walked twice, findings are taken from the second walk
+                saved = list(self.findings)
+                self.block(s.body)
+                self.findings = saved
+                self._bind_iter(s.target, s.iter)
                 self.block(s.body)
                 self.block(s.orelse)
             elif isinstance(s, ast.While):
                 self.expr(s.test)
+                saved = list(self.findings)
+                self.block(s.body)
+                self.findings = saved
                 self.block(s.body)
             elif isinstance(s, ast.If):
                 self.expr(s.test)
@@ -365,10 +374,10 @@ def r2_skip_dominance(ctx, res):
     r6_skip_dominance(ctx, res)
 
 
-def r3_input_not_modified(ctx, res):
+def r3_input_not_modified(ctx, res, scope=None, floor=40):
     n = 0
     nf = 0
-    for ms in SCOPE:
+    for ms in (scope or SCOPE):
         mod = ctx.repo.mod(ms)
         for f in mod.funcs.values():
             a = AliasAnalysis(ctx, f)
@@ -383,7 +392,7 @@ def r3_input_not_modified(ctx, res):
                 res.find(f'{key}:{norm(node)[:60]}', mod.loc(node),
                          f'{f.qualname}: {what} (reached from parameter(s) {a.seeds}): adding, validating or exporting must not modify '
                          f'the in-memory resource - a second add of the same object, or its later dump, sees different data')
-    if nf < 40:
+    if nf < floor:
         raise AnalysisError(f'only {nf} functions with model-typed parameters analysed')
 
 
